@@ -36,6 +36,7 @@ NewRun(b) == [active |-> TRUE, b |-> b, cons |-> 0, acc |-> 0, eof |-> FALSE,
               intr |-> {},        \* sides on which an Interrupted fault was injected
               owed |-> {},        \* kinds of call that were interrupted and not yet re-issued
               wfault |-> FALSE,   \* any fault on the write side (write or flush), hard or transient
+              unflushed |-> 0,    \* bytes the sink accepted since its last successful flush
               maxheap |-> 0,      \* largest heap peak seen at any event of this run
               ended |-> FALSE]
 
@@ -99,6 +100,8 @@ IOEvent ==
                   !.owed = IF IsIntr(e) THEN m.owed \cup {e.ev}
                            ELSE IF IsHard(e) THEN m.owed ELSE m.owed \ {e.ev},
                   !.wfault = (m.wfault \/ (e.ev # "read" /\ (IsHard(e) \/ IsIntr(e)))),
+                  !.unflushed = IF e.ev = "write" /\ e.ret > 0 THEN m.unflushed + e.ret
+                                ELSE IF e.ev = "flush" /\ e.ret = 0 THEN 0 ELSE m.unflushed,
                   !.maxheap = IF e.heap > m.maxheap THEN e.heap ELSE m.maxheap]
         /\ viol' = viol \cup EventChecks(e, m)
   /\ l' = l + 1
@@ -164,6 +167,10 @@ DecEnd(e, mm) ==
            ELSE {})
      \cup Flag(~(b.class = "must_accept" /\ nofault /\ e.res # "ok"), "D3_rejected_authentic_file")
      \cup (IF ~mm.wfault THEN Flag(e.boundary, "D5_partial_chunk_released") ELSE {})
+     \* whatever the decryptor handed to the sink has also been flushed through it when it returns - with success or with
+     \* an error: a sink that buffers would otherwise deliver part of a chunk, and deliver it after the error was reported
+     \cup (IF ~mm.wfault /\ e.res \notin {"panic", "hang"}
+           THEN Flag(mm.unflushed = 0, "D5_accepted_bytes_not_flushed_when_the_call_returns") ELSE {})
      \cup Flag(~b.twin.used \/ b.twin.prefix_ok, "D4_written_bytes_not_prefix_of_fault_free_run")
      \cup (IF HasScn(b)
            THEN Flag((e.acc \in Boundaries(F(b), b.H)) = e.boundary, "TOOL_projection_boundary")
